@@ -199,7 +199,7 @@ func (e *Enc) havocCallWritesAt(h *Heap, writes map[string]bool, callee *ssa.Fun
 	sort.Strings(keys)
 	for _, k := range keys {
 		wc := we[k]
-		if ghostPlain(k) || k == "map" || (wc != nil && wc.other) {
+		if ghostPlain(k) || (wc != nil && wc.other) {
 			e.havocKey(h, k)
 			continue
 		}
@@ -816,7 +816,7 @@ func (e *Enc) havocUnionAt(h *Heap, writes map[string]bool, callees []*ssa.Funct
 				}
 			}
 		}
-		if ghostPlain(k) || k == "map" || other {
+		if ghostPlain(k) || other {
 			e.havocKey(h, k)
 			continue
 		}
